@@ -28,7 +28,7 @@ YOUR JOB: produce ONE realistic change to clvm_rs (a plausible bug a maintainer 
   4. needs something SPECIFIC to manifest — an unusual input (a boundary size, a particular byte pattern, a non-canonical encoding), a multi-step sequence of operations, a particular flag combination or budget, two cooperating sites — NOT something ordinary use would expose at once. Prefer a change whose failing inputs are rare among random inputs.
 {("An earlier tester already produced this change — pick a DIFFERENT place in the code and a different kind of mistake: " + avoid + chr(10)) if avoid else ""}Keep the change small (a few lines) and do not touch tests, docs, benches or fuzz targets.
 
-Also write a DEMONSTRATION: a small Rust test or program (e.g. a new file `{wt}/tests/seed_demo.rs` as an integration test using the public API of the `clvmr` crate, or a `#[test]` you add in a NEW test file — do not edit existing tests) that FAILS with your change and PASSES without it. Verify both directions yourself: run the demo with the change applied (must fail), then `git stash` (or `git diff > /tmp/x.diff && git checkout -- src`) run it on the unchanged code (must pass), then restore your change.
+Also write a DEMONSTRATION: a small Rust test or program (e.g. a new file `{wt}/tests/seed_demo.rs` as an integration test using the public API of the `clvmr` crate, or a `#[test]` you add in a NEW test file — do not edit existing tests) that FAILS with your change and PASSES without it. Verify both directions yourself: run the demo with the change applied (must fail), then `git diff > /tmp/<your-worktree-name>.diff && git checkout -- src wheel` (NEVER use `git stash`: the stash is shared by all worktrees of /repo and other testers are working concurrently) run it on the unchanged code (must pass), then restore your change.
 
 DELIVER, in the directory {wt}/seed_out/ (create it):
   - patch.diff  : output of `git diff -- . ':(exclude)seed_out' ':(exclude)tests/seed_demo.rs'` for the source change ONLY (it must apply to a clean checkout of /repo HEAD with `git apply`),
